@@ -165,6 +165,13 @@ func (e *Env) Copy() *Env {
 	if e.values != nil {
 		copy.values = make(map[string]reflect.Value, len(e.values))
 		for name, value := range e.values {
+			if value.CanAddr() {
+				// an addressable binding is a cell that Addr hands out pointers
+				// to: the copy gets a cell of its own
+				cell := reflect.New(value.Type()).Elem()
+				cell.Set(value)
+				value = cell
+			}
 			copy.values[name] = value
 		}
 	}
